@@ -487,6 +487,36 @@ func c14PruneFilter(c *Ctx) {
 		if n == 0 {
 			c.und("prune-filter-agreement", sp.fn, p.Pos(fnPos(f)), "append to pendingRecords not found")
 		}
+		// … and the watermark is the *only* reason to drop an entry while reporting success: every success return of SetWALEntry
+		// that did not queue the record lies under `height < watermark`. Seeded change C13-L folds the test into a helper that
+		// also refuses heights 65536 or more above the watermark — whose zero value means "nothing pruned yet": a validator that
+		// starts with an empty WAL at chain height ≥ 65536 logs nothing for its first height and contradicts itself after a crash.
+		if sp.fn == "SetWALEntry" {
+			var queue ssa.Instruction
+			allInstrs(f, func(in ssa.Instruction) {
+				if st, ok := in.(*ssa.Store); ok && strings.HasSuffix(term(st.Addr), "s.pendingRecords") {
+					queue = in
+				}
+			})
+			for _, r := range returnsOf(f) {
+				if len(r.Results) != 1 || !isNilConst(r.Results[0]) || queue == nil || dominatesInstr(queue, r.Ret) {
+					continue
+				}
+				bad := ""
+				for _, cj := range p.mustHoldAt(r.Ret) {
+					has := false
+					for _, a := range cj.list() {
+						if !strings.HasPrefix(a, "!") && strings.Contains(a, sp.pat) {
+							has = true
+						}
+					}
+					if !has {
+						bad = strings.Join(cj.list(), " ∧ ")
+					}
+				}
+				c.check(bad == "", "prune-filter-agreement", "SetWALEntry: dropped only below the watermark", p.Pos(posOf(r.Ret, f)), "an entry is discarded with success only under height < watermark", "SetWALEntry reports success without queueing the entry on a path that is not `height < prune watermark` ("+clip(bad, 220)+"): a flushed entry of a live height is silently missing from the log")
+			}
+		}
 	}
 	// watermark only grows
 	if f := wsFunc(p, "tendermintWALStore", "pruneLiveEntriesUpTo"); f != nil {
